@@ -81,6 +81,17 @@ int main(void)
     if (bind(lsock, (struct sockaddr *)&sin, sizeof(sin)) < 0 || listen(lsock, 8) < 0) { printf("NOLISTEN\n"); return 1; }
     getsockname(lsock, (struct sockaddr *)&sin, &sl);
     peer_port = ntohs(sin.sin_port);
+    /* reserved-port contention: every even reserved port is taken, so the port just below the one the main connection
+     * gets is never free - the stderr port that is announced must be the one that was really bound */
+    {
+        int q;
+        for (q = 512; q < 1024; q += 2) {
+            int hs = socket(AF_INET, SOCK_STREAM, 0);
+            struct sockaddr_in ha;
+            memset(&ha, 0, sizeof(ha)); ha.sin_family = AF_INET; ha.sin_addr.s_addr = htonl(INADDR_ANY); ha.sin_port = htons(q);
+            if (hs >= 0 && bind(hs, (struct sockaddr *)&ha, sizeof(ha)) < 0) close(hs);     /* kept open otherwise */
+        }
+    }
     while (getline(&line, &cap, stdin) > 0) {
         char *save = NULL, *op = strtok_r(line, " \n", &save);
         char *w = strtok_r(NULL, " \n", &save), *l = strtok_r(NULL, " \n", &save);
